@@ -139,9 +139,11 @@ type PeerScript struct {
 	MaxDelayMs     int   `json:"max_delay_ms"` // honest answers are delayed 0..MaxDelayMs
 	ConnectDelayMs int   `json:"connect_delay_ms"`
 	StatusDelta    int   `json:"status_delta,omitempty"` // claimed height = source height + delta
-	StatusEveryMs  int   `json:"status_every_ms"`        // unsolicited status every so often (0: only on request)
-	DropAtMs       int   `json:"drop_at_ms,omitempty"`   // the peer hangs up that long after its first connection
-	Redial         bool  `json:"redial"`                 // the peer dials again when the connection is gone
+	// StatusDeltaUntilMs > 0: that long after its first connection the peer tells the true height
+	StatusDeltaUntilMs int  `json:"status_delta_until_ms,omitempty"`
+	StatusEveryMs      int  `json:"status_every_ms"`      // unsolicited status every so often (0: only on request)
+	DropAtMs           int  `json:"drop_at_ms,omitempty"` // the peer hangs up that long after its first connection
+	Redial             bool `json:"redial"`               // the peer dials again when the connection is gone
 }
 
 // tamperKinds lists every tampering; the generator draws from it.
@@ -506,7 +508,16 @@ func (r *sinkReactor) GetChannels() []*p2p.ChannelDescriptor {
 }
 
 func (sp *scriptedPeer) sendStatus(peer *p2p.Peer) {
-	hgt := sp.src.H + int64(sp.script.StatusDelta)
+	delta := int64(sp.script.StatusDelta)
+	if sp.script.StatusDeltaUntilMs > 0 {
+		sp.mu.Lock()
+		first := sp.firstConn
+		sp.mu.Unlock()
+		if !first.IsZero() && time.Since(first) >= time.Duration(sp.script.StatusDeltaUntilMs)*time.Millisecond {
+			delta = 0
+		}
+	}
+	hgt := sp.src.H + delta
 	if hgt < 0 {
 		hgt = 0
 	}
